@@ -80,9 +80,9 @@ Proof.
     { intro k. unfold hasn, has. fold (@getn cnode) (@getn anode). rewrite (smerge_get_node _ _ _ k H).
       destruct (getn k (nodes C)), (getn k (adm_nodes A)); reflexivity. }
     rewrite !HN.
-    unfold hase, has in H0. fold (@gete (edata * bool)) in H0. rewrite (smerge_get_edge _ _ _ e H) in H0.
-    destruct (gete e (edges C)) as [[d f]|] eqn:Ec.
-    + assert (hase e (edges C) = true) as X by (unfold hase, has; fold (@gete (edata * bool)); rewrite Ec; reflexivity).
+    unfold hase, has in H0. fold (@gete edata) in H0. rewrite (smerge_get_edge _ _ _ e H) in H0.
+    destruct (gete e (edges C)) as [d0|] eqn:Ec.
+    + assert (hase e (edges C) = true) as X by (unfold hase, has; fold (@gete edata); rewrite Ec; reflexivity).
       destruct (DG e X) as [-> _]. reflexivity.
     + destruct (gete e (adm_edges A)) as [d|] eqn:Ea; [|discriminate].
       destruct WA as (_ & _ & WE).
@@ -92,9 +92,9 @@ Proof.
     { intro k. unfold hasn, has. fold (@getn cnode) (@getn anode). rewrite (smerge_get_node _ _ _ k H).
       destruct (getn k (nodes C)), (getn k (adm_nodes A)); reflexivity. }
     rewrite !HN.
-    unfold hase, has in H0. fold (@gete (edata * bool)) in H0. rewrite (smerge_get_edge _ _ _ e H) in H0.
-    destruct (gete e (edges C)) as [[d f]|] eqn:Ec.
-    + assert (hase e (edges C) = true) as X by (unfold hase, has; fold (@gete (edata * bool)); rewrite Ec; reflexivity).
+    unfold hase, has in H0. fold (@gete edata) in H0. rewrite (smerge_get_edge _ _ _ e H) in H0.
+    destruct (gete e (edges C)) as [d0|] eqn:Ec.
+    + assert (hase e (edges C) = true) as X by (unfold hase, has; fold (@gete edata); rewrite Ec; reflexivity).
       destruct (DG e X) as [_ ->]. reflexivity.
     + destruct (gete e (adm_edges A)) as [d|] eqn:Ea; [|discriminate].
       destruct WA as (_ & _ & WE).
